@@ -97,34 +97,45 @@ pub open spec fn commit_seq(s: Seq<(OutputIdentifier, CommitPos)>) -> Seq<Commit
 #[verifier::external_body]
 fn positions_of(spent: Vec<(OutputIdentifier, CommitPos)>) -> (r: Vec<CommitPos>) ensures r@ == pos_seq(spent@) { unimplemented!() }
 
+pub proof fn lemma_push_contains(s: Seq<u64>, x: u64)
+    ensures s.push(x).contains(x), forall|y: u64| s.contains(y) ==> #[trigger] s.push(x).contains(y)
+{
+    assert(s.push(x)[s.len() as int] == x);
+    assert forall|y: u64| s.contains(y) implies #[trigger] s.push(x).contains(y) by { let i = choose|i: int| 0 <= i < s.len() && s[i] == y; assert(s.push(x)[i] == y); }
+}
 pub struct Extension {
     pub head: Tip,
     /// ghost logs: outputs that went through a successful apply_output, inputs through a successful apply_input
     pub out_log: Ghost<Seq<Output>>,
     pub in_log: Ghost<Seq<(Commitment, CommitPos)>>,
     pub kernels_ok: Ghost<bool>,
+    /// positions handed out by apply_output, and the position lists the bitmap accumulator was rebuilt from
+    pub created: Ghost<Seq<u64>>,
+    pub acc_log: Ghost<Seq<Seq<u64>>>,
 }
 impl Extension {
     #[verifier::external_body]
     pub fn apply_output(&mut self, out: &Output, batch: &Batch) -> (r: Result<u64, Error>)
         ensures r.is_ok() ==> final(self).out_log@ == old(self).out_log@.push(*out),
                 r.is_err() ==> final(self).out_log@ == old(self).out_log@,
+                r matches Ok(p) ==> final(self).created@ == old(self).created@.push(p), final(self).acc_log@ == old(self).acc_log@,
                 final(self).in_log@ == old(self).in_log@, final(self).kernels_ok@ == old(self).kernels_ok@ { unimplemented!() }
     #[verifier::external_body]
     pub fn apply_input(&mut self, commit: Commitment, pos: CommitPos) -> (r: Result<(), Error>)
         ensures r.is_ok() ==> final(self).in_log@ == old(self).in_log@.push((commit, pos)),
-                r.is_err() ==> final(self).in_log@ == old(self).in_log@,
+                r.is_err() ==> final(self).in_log@ == old(self).in_log@, final(self).created@ == old(self).created@, final(self).acc_log@ == old(self).acc_log@,
                 final(self).out_log@ == old(self).out_log@, final(self).kernels_ok@ == old(self).kernels_ok@ { unimplemented!() }
     #[verifier::external_body]
     pub fn utxo_view(&self, header_ext: &HeaderExtension) -> (r: UTXOView)
         ensures r.out_log@ == self.out_log@, r.in_log@ == self.in_log@ { unimplemented!() }
     #[verifier::external_body]
     pub fn apply_kernels(&mut self, kernels: &[TxKernel], height: u64, batch: &Batch) -> (r: Result<(), Error>)
-        ensures r.is_ok() ==> final(self).kernels_ok@ == sp_kernels_applied(kernels@, height),
+        ensures r.is_ok() ==> final(self).kernels_ok@ == sp_kernels_applied(kernels@, height), final(self).created@ == old(self).created@, final(self).acc_log@ == old(self).acc_log@,
                 final(self).out_log@ == old(self).out_log@, final(self).in_log@ == old(self).in_log@ { unimplemented!() }
     #[verifier::external_body]
     fn apply_to_bitmap_accumulator(&mut self, output_pos: &Vec<u64>) -> (r: Result<(), Error>)
-        ensures final(self).out_log@ == old(self).out_log@, final(self).in_log@ == old(self).in_log@, final(self).kernels_ok@ == old(self).kernels_ok@ { unimplemented!() }
+        ensures final(self).out_log@ == old(self).out_log@, final(self).in_log@ == old(self).in_log@, final(self).kernels_ok@ == old(self).kernels_ok@,
+            final(self).created@ == old(self).created@, final(self).acc_log@ == old(self).acc_log@.push(output_pos@) { unimplemented!() }
 
 //@ extract chain/src/txhashset/txhashset.rs :: impl Extension::apply_block
 //@   sigrewrite `header_ext: &HeaderExtension<'_>` => `header_ext: &HeaderExtension`
@@ -140,6 +151,9 @@ impl Extension {
 //@+        batch.saved().len() == old(batch).saved().len() + it.index@,
 //@+        forall|j: int| 0 <= j < it.index@ ==> (#[trigger] batch.saved()[old(batch).saved().len() + j]).0 == sp_commit(b.sp_outputs()[j]),
 //@+        batch.saved().take(old(batch).saved().len() as int) == old(batch).saved(),
+//@+        self.acc_log@ == old(self).acc_log@, self.created@.len() == old(self).created@.len() + it.index@,
+//@+        self.created@.take(old(self).created@.len() as int) =~= old(self).created@,
+//@+        forall|k: int| 0 <= k < it.index@ ==> affected_pos@.contains(#[trigger] self.created@[old(self).created@.len() + k]),
 //@+        batch.deleted() == old(batch).deleted(), batch.spent_index() == old(batch).spent_index(),
 //@   loop 2:
 //@+    invariant
@@ -149,6 +163,17 @@ impl Extension {
 //@+        batch.saved().len() == old(batch).saved().len() + b.sp_outputs().len(),
 //@+        forall|j: int| 0 <= j < b.sp_outputs().len() ==> (#[trigger] batch.saved()[old(batch).saved().len() + j]).0 == sp_commit(b.sp_outputs()[j]),
 //@+        batch.spent_index() == old(batch).spent_index(),
+//@+        self.acc_log@ == old(self).acc_log@, self.created@.len() == old(self).created@.len() + b.sp_outputs().len(),
+//@+        forall|k: int| 0 <= k < b.sp_outputs().len() ==> affected_pos@.contains(#[trigger] self.created@[old(self).created@.len() + k]),
+//@+        forall|j: int| 0 <= j < it2.index@ ==> affected_pos@.contains((#[trigger] spent@[j]).1.pos),
+//@   before? `affected_pos.push(pos);`:
+//@+    let ghost ap0 = affected_pos@;
+//@   after? `affected_pos.push(pos);`:
+//@+    proof { lemma_push_contains(ap0, pos); }
+//@   before? `affected_pos.push(pos.pos);`:
+//@+    let ghost ap0 = affected_pos@;
+//@   after? `affected_pos.push(pos.pos);`:
+//@+    proof { lemma_push_contains(ap0, pos.pos); }
 //@   before `let spent = self`:
 //@+    proof { assert(b.sp_outputs().take(b.sp_outputs().len() as int) =~= b.sp_outputs()); }
 //@   before `let ghost spent0`:
@@ -166,6 +191,12 @@ impl Extension {
 //@+        && forall|j: int| 0 <= j < b.sp_outputs().len() ==> (#[trigger] final(batch).saved()[old(batch).saved().len() + j]).0 == sp_commit(b.sp_outputs()[j]),
 //@+    r.is_ok() ==> final(self).kernels_ok@ == sp_kernels_applied(b.sp_kernels(), b.header.height),
 //@+    r.is_ok() ==> final(self).head == sp_tip_of(b.header),
+//@+    // C15: the bitmap accumulator is rebuilt once, from a list holding the position of EVERY output created and EVERY output spent by the block
+//@+    r.is_ok() ==> final(self).acc_log@.len() == old(self).acc_log@.len() + 1
+//@+        && final(self).created@.len() == old(self).created@.len() + b.sp_outputs().len()
+//@+        && (forall|k: int| 0 <= k < b.sp_outputs().len() ==> final(self).acc_log@.last().contains(#[trigger] final(self).created@[old(self).created@.len() + k]))
+//@+        && exists|spent: Seq<(OutputIdentifier, CommitPos)>| sp_inputs_resolved(old(self).out_log@ + b.sp_outputs(), old(self).in_log@, b.sp_inputs(), spent)
+//@+            && forall|j: int| 0 <= j < spent.len() ==> final(self).acc_log@.last().contains((#[trigger] spent[j]).1.pos),
 //@ end
 }
 //@ canary apply_block: r.is_err()
